@@ -503,6 +503,25 @@ func (g *GoBackNConn) sendPacketsForever() error {
 				if err := resendQueue(); err != nil {
 					return err
 				}
+
+			case <-g.pingTicker.Ticks():
+				// Nothing has been received for the ping interval.
+				// The window is full, so no ping packet can be
+				// queued; the unacknowledged packets in the queue
+				// are the probe. Start the pong timer so that a
+				// peer that has gone away is noticed here too.
+				select {
+				case <-g.pongTicker.Ticks():
+					return errKeepaliveTimeout
+				default:
+				}
+
+				g.pongTicker.Reset()
+				g.pongTicker.Resume()
+				g.pingTicker.Reset()
+
+			case <-g.pongTicker.Ticks():
+				return errKeepaliveTimeout
 			}
 		}
 	}
